@@ -115,8 +115,8 @@ func runStop(c *core.Ctx, s *run.Session, l *hist.Layout, start hist.Pos, scn st
 		for i := 0; i < 4000; i++ {
 			conns := s.M.Conns()
 			if len(conns) > 0 && conns[len(conns)-1].Snapshot().HoldReached {
-				state = readerState(run.LibGoroutines(nil))
-				if state == "network" && parserIdle() {
+				state = s.ReaderState()
+				if state == "network" && s.CallerIdle() {
 					break
 				}
 			}
@@ -153,7 +153,7 @@ func runStop(c *core.Ctx, s *run.Session, l *hist.Layout, start hist.Pos, scn st
 		state := "unknown"
 		if blocked {
 			for i := 0; i < 400; i++ {
-				state = readerState(run.LibGoroutines(nil))
+				state = s.ReaderState()
 				if state == "holding" || state == "network" {
 					// network means the master has nothing more to send after tx j
 					if state == "holding" || i > 40 {
@@ -205,17 +205,17 @@ func runStop(c *core.Ctx, s *run.Session, l *hist.Layout, start hist.Pos, scn st
 		if blocked {
 			for i := 0; i < 4000; i++ {
 				conns := s.M.Conns()
-				if len(conns) > 0 && conns[len(conns)-1].Snapshot().HoldReached && readerState(run.LibGoroutines(nil)) == "network" {
+				if len(conns) > 0 && conns[len(conns)-1].Snapshot().HoldReached && s.ReaderState() == "network" {
 					break
 				}
 				time.Sleep(250 * time.Microsecond)
 			}
-			ob.Reader = readerState(run.LibGoroutines(nil))
+			ob.Reader = s.ReaderState()
 			ob.Reached = true
 			s.Cancel()
 			s.M.Release() // late packets
 			for i := 0; i < 400; i++ { // let the reader meet them
-				if st := readerState(run.LibGoroutines(nil)); st != "network" {
+				if st := s.ReaderState(); st != "network" {
 					break
 				}
 				time.Sleep(100 * time.Microsecond)
@@ -263,7 +263,7 @@ func runStop(c *core.Ctx, s *run.Session, l *hist.Layout, start hist.Pos, scn st
 				}
 				time.Sleep(250 * time.Microsecond)
 			}
-			ob.Reader = readerState(run.LibGoroutines(nil))
+			ob.Reader = s.ReaderState()
 			ob.Reached = true
 		}
 		s.ReleaseHandler()
@@ -289,18 +289,6 @@ func runStop(c *core.Ctx, s *run.Session, l *hist.Layout, start hist.Pos, scn st
 		return ob
 	}
 	return runAttempt(c, s, l, start, spec, o, r)
-}
-
-// parserIdle reports whether the parser goroutine is parked in its select.
-func parserIdle() bool {
-	for _, g := range run.LibGoroutines(nil) {
-		for _, f := range g.Frames {
-			if f == "github.com/Breeze0806/gobinlog.(*Streamer).parseEvents" {
-				return g.Parked()
-			}
-		}
-	}
-	return false
 }
 
 func finishObs(s *run.Session, ob *attemptObs, o attemptOpts) {
